@@ -2,3 +2,7 @@ package defn
 
 // MaxNDNPacketSize is the maximum allowed NDN packet size
 const MaxNDNPacketSize = 8800
+
+// MinMTU is the smallest MTU a face may be configured with: below it the
+// NDNLP header overhead leaves no room to carry (a fragment of) a packet.
+const MinMTU = 128
